@@ -283,9 +283,18 @@ def check_c03(prop, tier, seed):
     camp = campaign.run_campaign('history', 6000 if thorough else 500, seed, profile='C03',
                                  nops=12 if thorough else 8, maxlen=10 if thorough else 6, more=0.6, odd=0.12,
                                  epilogue=('reparse', 'simplify'))
-    return report(prop, tier, seed, t0, camp, design,
+    from .drivers import history
+    cases = history.pair_end_cases(all_second=thorough) + history.many_end_cases() + history.keep_clear_cases()
+    if thorough:
+        cases += history.stack_cases() + history.triple_cases()
+    fam = campaign.run_campaign('roundtrip_family', len(cases), seed + 1, cases=cases, per_shard_max=4000)
+    return report(prop, tier, seed, t0, merge(camp, fam), design,
                   extra_cov={'rule': 'random histories (overlapping, conflicting, shadowing, multi-parameter, verbatim and '
-                                     'invalid settings) each followed by render->parse and simplify()/simplify() on every value'})
+                                     'invalid settings) each followed by render->parse and simplify()/simplify() on every value; '
+                                     'enumerated family: settings of every ordered pair of the 14 effect groups ending together '
+                                     '(alone / with a third kept on / one after the other), 3-6 settings ending at one index, clearing '
+                                     'settings over active ones - each rendered, re-parsed and simplified twice',
+                             'family_cases': len(cases)})
 
 
 def enum_campaign(gen, alpha, maxlen, block, seed, **kw):
